@@ -24,6 +24,112 @@ func (i *iface) VarlinkDispatch(ctx context.Context, c varlink.Call, m string) e
 	return c.Reply(ctx, map[string]string{"m": m})
 }
 
+// raw is an interface whose methods upgrade the connection and then use the raw byte stream, also with cancelled reads;
+// Slow answers late, so that a client can cancel the blocked receive and use the connection again.
+type raw struct{}
+
+func (raw) VarlinkGetName() string { return "r.w" }
+func (raw) VarlinkGetDescription() string {
+	return "interface r.w\nmethod ClientCancels() -> ()\nmethod HandlerCancels() -> ()\nmethod Slow() -> ()"
+}
+func (raw) VarlinkDispatch(ctx context.Context, c varlink.Call, m string) error {
+	if m == "Slow" {
+		time.Sleep(20 * time.Millisecond)
+		return c.Reply(ctx, nil)
+	}
+	if !c.WantsUpgrade() {
+		return c.ReplyInvalidParameter(ctx, "upgrade")
+	}
+	if err := c.Reply(ctx, nil); err != nil {
+		return err
+	}
+	buf := make([]byte, 16)
+	switch m {
+	case "ClientCancels":
+		if _, err := c.Conn.Read(ctx, buf); err != nil {
+			return err
+		}
+		_, err := c.Conn.Write(ctx, []byte("pong"))
+		return err
+	case "HandlerCancels":
+		rctx, cancel := context.WithCancel(ctx)
+		t := time.AfterFunc(5*time.Millisecond, cancel)
+		c.Conn.Read(rctx, buf)
+		t.Stop()
+		cancel()
+		_, err := c.Conn.Write(ctx, []byte("late"))
+		return err
+	}
+	return c.ReplyMethodNotFound(ctx, m)
+}
+
+// clientScenarios: one goroutine per connection, as intended; the only other goroutines touching a connection are the
+// helpers the library starts itself. Cancelled operations are followed by further use of the same connection.
+func clientScenarios(n int) {
+	svc, _ := varlink.NewService("v", "p", "1", "u")
+	svc.RegisterInterface(raw{})
+	addr := fmt.Sprintf("unix:@vrf-race-c-%d-%d", os.Getpid(), n)
+	ctx := context.Background()
+	done := make(chan error, 1)
+	go func() { done <- svc.Listen(ctx, addr, 0) }()
+	for i := 0; i < 2000; i++ {
+		if l, _ := svc.GetListener(); l != nil {
+			break
+		}
+		time.Sleep(200 * time.Microsecond)
+	}
+	dl := func() (context.Context, context.CancelFunc) { return context.WithTimeout(ctx, 2*time.Second) }
+	// (1) a cancelled call (blocked receive), then the connection is used again
+	if conn, err := varlink.NewConnection(ctx, addr); err == nil {
+		for i := 0; i < 3; i++ {
+			c1, cancel1 := context.WithCancel(ctx)
+			t := time.AfterFunc(2*time.Millisecond, cancel1)
+			var out struct{}
+			conn.Call(c1, "r.w.Slow", nil, &out)
+			t.Stop()
+			cancel1()
+			c2, cancel2 := dl()
+			var v string
+			conn.GetInfo(c2, &v, nil, nil, nil, nil)
+			cancel2()
+		}
+		conn.Close()
+	}
+	// (2) / (3) a cancelled raw Read on an upgraded connection, client side and handler side, then further use
+	for _, m := range []string{"r.w.ClientCancels", "r.w.HandlerCancels"} {
+		conn, err := varlink.NewConnection(ctx, addr)
+		if err != nil {
+			continue
+		}
+		c0, cancel0 := dl()
+		recv, err := conn.Upgrade(c0, m, nil)
+		if err == nil {
+			var out struct{}
+			_, rw, err := recv(c0, &out)
+			if err == nil && rw != nil {
+				buf := make([]byte, 16)
+				if m == "r.w.ClientCancels" {
+					rctx, cancel := context.WithCancel(ctx)
+					t := time.AfterFunc(5*time.Millisecond, cancel)
+					rw.Read(rctx, buf)
+					t.Stop()
+					cancel()
+					rw.Write(c0, []byte("ping"))
+				}
+				rw.Read(c0, buf)
+			}
+		}
+		cancel0()
+		conn.Close()
+	}
+	svc.Shutdown()
+	select {
+	case <-done:
+	case <-time.After(3 * time.Second):
+		fmt.Println("NORETURN")
+	}
+}
+
 func scenario(rng *rand.Rand, n int, useListen bool, ops []string, clients int) {
 	svc, _ := varlink.NewService("v", "p", "1", "u")
 	svc.RegisterInterface(&iface{"a.b"})
@@ -37,6 +143,11 @@ func scenario(rng *rand.Rand, n int, useListen bool, ops []string, clients int) 
 			return
 		}
 		go func() { done <- svc.DoListen(ctx, 50*time.Millisecond) }()
+	}
+	// the property speaks of operations concurrent with a RUNNING serving call: its start-up (Bind inside Listen) is not
+	// meant to overlap with other calls on the same object
+	for i := 0; i < 10000 && !svc.VerifRunning(); i++ {
+		time.Sleep(100 * time.Microsecond)
 	}
 	time.Sleep(time.Duration(rng.Intn(300)) * time.Microsecond)
 	var wg sync.WaitGroup
@@ -117,6 +228,10 @@ func main() {
 	all := []string{"shutdown", "getlistener", "register", "bind"}
 	n := 0
 	for it := 0; it < iters; it++ {
+		for k := 0; k < 3; k++ {
+			n++
+			clientScenarios(n)
+		}
 		for _, useListen := range []bool{true, false} {
 			// every pair and triple of operations
 			for mask := 1; mask < 16; mask++ {
